@@ -328,7 +328,7 @@ func genExpmod(rng *rand.Rand, quick bool) []*expmodCase {
 		mk("mod 2", rnd(), rnd(), bi(2))
 		mk("mod 2^k", rnd(), rnd(), new(big.Int).Lsh(bi(1), uint(w-1)))
 		mk("all-max", max, max, max)
-		mk("b^e mod max,small", bi(3), bi(200), max)
+		mk("modulus=2^w-1(all-ones)", bi(3), bi(200), max)
 		if !quick {
 			mk("random2", rnd(), rnd(), rnd())
 			mk("e=max", rnd(), max, m)
@@ -353,6 +353,12 @@ func judgeExpmod(r *vcore.Run, c *expmodCase, o outcome) {
 		r.Count("evm.expmod.correct", 1)
 		r.SampleClass("evm/expmod/"+c.Class, map[string]any{"width": c.Width, "result": c.Want.String()})
 	case o.Sat:
+		got, _ := new(big.Int).SetString(o.Got[0], 10)
+		if c.Mod.Sign() != 0 && got != nil && new(big.Int).Mod(got, c.Mod).Cmp(c.Want) == 0 {
+			r.Count("evm.expmod.NON-CANONICAL", 1)
+			r.Violation(fam+"/result-not-reduced-below-the-modulus/"+c.Class, "Expmod returns a value congruent to base^exp but not smaller than the modulus (the precompile returns the canonical residue): "+c.Class, rep)
+			return
+		}
 		r.Count("evm.expmod.WRONG", 1)
 		r.Violation(fam+"/WRONG-RESULT/"+c.Class, "Expmod differs from the specification: "+c.Class, rep)
 	default:
